@@ -41,15 +41,33 @@ def check(model: Model, run: Run) -> None:
         bfs = set(bytes_fields(model, cq))
         if strm is None or not bfs:
             continue
+        def is_field(a: ast.expr) -> bool:
+            if isinstance(a, ast.BoolOp) and isinstance(a.op, ast.Or):
+                a = a.values[0]                     # `self.initial or b""`
+            return isinstance(a, ast.Attribute) and isinstance(a.value, ast.Name) and a.value.id == "self" and a.attr in bfs
         for c in ast.walk(strm.node):
-            if isinstance(c, ast.Call) and isinstance(c.func, ast.Name) and any(isinstance(x, ast.Attribute) and isinstance(x.value, ast.Name) and x.value.id == "self" and x.attr in bfs
-                                                                              for a in c.args for x in ast.walk(a)):
+            # the innermost call that is handed the field itself (not a call that merely contains such a call in its arguments)
+            if isinstance(c, ast.Call) and isinstance(c.func, ast.Name) and any(is_field(a) for a in c.args):
                 q = model.resolve_name(FILTER, c.func.id)
                 if q in model.functions:
                     called[q] += 1
     if not called:
         raise AnalysisError("no __str__ of a filter class hands a bytes field to a module function (value serialiser not found)")
     ser_q = called.most_common(1)[0][0]
+    # the function handed the field may be a formatting helper that passes it on to the serialiser proper
+    for _hop in range(3):
+        if any(s.func == ser_q or s.func.startswith(ser_q + ".") for s in subs):
+            break
+        nxt = Counter()
+        f0 = model.functions[ser_q]
+        for c in ast.walk(f0.node):
+            if isinstance(c, ast.Call) and isinstance(c.func, ast.Name) and any(isinstance(a, ast.Name) and a.id in f0.params() for a in c.args):
+                q = model.resolve_name(FILTER, c.func.id)
+                if q in model.functions and q != ser_q:
+                    nxt[q] += 1
+        if not nxt:
+            break
+        ser_q = nxt.most_common(1)[0][0]
     ser = [s for s in subs if s.func == ser_q or s.func.startswith(ser_q + ".")]
     if len(ser) != 1:
         raise AnalysisError(f"expected one escape substitution in {ser_q}, found {len(ser)}")
@@ -77,51 +95,81 @@ def check(model: Model, run: Run) -> None:
             run.ob("J1-sanitiser-routing", False)
             run.fail(Finding("J1-sanitiser-routing", cq, "no __str__", "a value-carrying filter class has no __str__ of its own", model.loc(FILTER, model.classes[cq].node)))
             continue
-        # names bound to elements of a bytes list field
-        elem_vars = {}
-        for f in ast.walk(strm.node):
-            if isinstance(f, (ast.For, ast.comprehension)) and isinstance(f.iter, ast.Attribute) and isinstance(f.iter.value, ast.Name) and f.iter.value.id == "self" and f.iter.attr in bfs and isinstance(f.target, ast.Name):
-                elem_vars[f.target.id] = f.iter.attr
+        # taint dataflow inside __str__: the bytes fields are tainted; the value serialiser (applied directly, through map(), or in a
+        # comprehension) cleans; whatever reaches the returned text must be clean.  Tests (`is None`, truthiness) are not uses.
+        ser_name = sfi.name
+        tainted: Set[str] = set()
+
+        def is_src(e: ast.expr) -> bool:
+            return isinstance(e, ast.Attribute) and isinstance(e.value, ast.Name) and e.value.id == "self" and e.attr in bfs
+
+        def clean(e: ast.AST, extra: Set[str] = frozenset()) -> bool:
+            if isinstance(e, ast.Name):
+                return e.id not in tainted and e.id not in extra
+            if is_src(e):
+                return False
+            if isinstance(e, ast.Call):
+                fn = e.func
+                if isinstance(fn, ast.Name) and fn.id == ser_name:
+                    return True
+                if isinstance(fn, ast.Name) and fn.id == "map" and e.args and isinstance(e.args[0], ast.Name) and e.args[0].id == ser_name:
+                    return True
+                parts = list(e.args) + [k.value for k in e.keywords] + ([fn.value] if isinstance(fn, ast.Attribute) else [])
+                return all(clean(p_, extra) for p_ in parts)
+            if isinstance(e, (ast.ListComp, ast.GeneratorExp, ast.SetComp)):
+                ex2 = set(extra)
+                for g in e.generators:
+                    if not clean(g.iter, ex2):
+                        ex2 |= {x.id for x in ast.walk(g.target) if isinstance(x, ast.Name)}
+                return clean(e.elt, ex2)
+            if isinstance(e, ast.IfExp):
+                return clean(e.body, extra) and clean(e.orelse, extra)
+            if isinstance(e, ast.Compare):
+                return True              # a comparison yields a bool, not the octets
+            return all(clean(ch, extra) for ch in ast.iter_child_nodes(e) if isinstance(ch, ast.expr))
+        for _pass in range(3):
+            for n in ast.walk(strm.node):
+                if isinstance(n, (ast.Assign, ast.AnnAssign)) and n.value is not None and not clean(n.value):
+                    for t_ in (n.targets if isinstance(n, ast.Assign) else [n.target]):
+                        tainted |= {x.id for x in ast.walk(t_) if isinstance(x, ast.Name)}
+                elif isinstance(n, ast.For) and not clean(n.iter):
+                    tainted |= {x.id for x in ast.walk(n.target) if isinstance(x, ast.Name)}
+                elif isinstance(n, ast.Call) and isinstance(n.func, ast.Attribute) and n.func.attr in ("append", "extend", "insert", "add") and isinstance(n.func.value, ast.Name) \
+                        and not all(clean(a_) for a_ in n.args):
+                    tainted.add(n.func.value.id)
+        rets_ = [r for r in ast.walk(strm.node) if isinstance(r, ast.Return) and r.value is not None]
+        referenced = {x.attr for x in ast.walk(strm.node) if is_src(x)}
         for fld in bfs:
             n_fields += 1
-            uses = []
-            parents = {}
-            for p in ast.walk(strm.node):
-                for ch in ast.iter_child_nodes(p):
-                    parents[id(ch)] = p
-            for n in ast.walk(strm.node):
-                is_use = (isinstance(n, ast.Attribute) and isinstance(n.value, ast.Name) and n.value.id == "self" and n.attr == fld and isinstance(n.ctx, ast.Load)) or \
-                         (isinstance(n, ast.Name) and elem_vars.get(n.id) == fld and isinstance(n.ctx, ast.Load))
-                if not is_use:
-                    continue
-                # allowed contexts: iteration source, `is None` / truthiness tests, or (inside) the argument of the serialiser
-                p = parents.get(id(n))
-                ok = False
-                cur, up = n, p
-                while up is not None:
-                    if isinstance(up, ast.Call) and norm(up.func) == sfi.name and any(cur is a or any(x is cur for x in ast.walk(a)) for a in up.args):
-                        ok = True
-                        break
-                    if isinstance(up, (ast.For, ast.comprehension)) and up.iter is cur:
-                        ok = True
-                        break
-                    if isinstance(up, ast.Compare) and all(isinstance(c, ast.Constant) and c.value is None for c in up.comparators):
-                        ok = True
-                        break
-                    if isinstance(up, (ast.If, ast.IfExp)) and up.test is cur:
-                        ok = True
-                        break
-                    if isinstance(up, ast.stmt):
-                        break
-                    cur, up = up, parents.get(id(up))
-                uses.append((n, ok))
-            good = bool(uses) and all(ok for _, ok in uses)
-            run.ob("J1-sanitiser-routing", good, {"class": cq.split(".")[-1], "field": fld, "uses": len(uses)})
+            bad_rets = [r for r in rets_ if not clean(r.value)]
+            # which field is to blame: a return is dirty because of this field if it is dirty with only this field as a source
+            dirty = False
+            if bad_rets:
+                others = set(bfs) - {fld}
+                saved_bfs = bfs
+                bfs = [fld]
+                tainted_saved = set(tainted)
+                tainted.clear()
+                for _pass in range(3):
+                    for n in ast.walk(strm.node):
+                        if isinstance(n, (ast.Assign, ast.AnnAssign)) and n.value is not None and not clean(n.value):
+                            for t_ in (n.targets if isinstance(n, ast.Assign) else [n.target]):
+                                tainted |= {x.id for x in ast.walk(t_) if isinstance(x, ast.Name)}
+                        elif isinstance(n, ast.For) and not clean(n.iter):
+                            tainted |= {x.id for x in ast.walk(n.target) if isinstance(x, ast.Name)}
+                        elif isinstance(n, ast.Call) and isinstance(n.func, ast.Attribute) and n.func.attr in ("append", "extend", "insert", "add") and isinstance(n.func.value, ast.Name) \
+                                and not all(clean(a_) for a_ in n.args):
+                            tainted.add(n.func.value.id)
+                dirty = any(not clean(r.value) for r in rets_)
+                bfs = saved_bfs
+                tainted.clear()
+                tainted |= tainted_saved
+            good = fld in referenced and not dirty
+            run.ob("J1-sanitiser-routing", good, {"class": cq.split(".")[-1], "field": fld})
             if not good:
-                badn = [n for n, ok in uses if not ok]
-                run.fail(Finding("J1-sanitiser-routing", f"{cq}.__str__", f"field={fld}|{'unsanitised use' if badn else 'never written'}",
-                                 f"`{fld}` ({'reaches the text without passing through ' + sfi.name if badn else 'is not written by __str__'}): value octets could change the filter's shape",
-                                 model.loc(FILTER, badn[0] if badn else strm.node)))
+                run.fail(Finding("J1-sanitiser-routing", f"{cq}.__str__", f"field={fld}|{'unsanitised use' if dirty else 'never written'}",
+                                 f"`{fld}` ({'reaches the text without passing through ' + sfi.name if dirty else 'is not written by __str__'}): value octets could change the filter's shape",
+                                 model.loc(FILTER, bad_rets[0] if dirty and bad_rets else strm.node)))
     run.floor("bytes-typed filter fields", n_fields, 8)
     # ---- (2) escape-set completeness -------------------------------------------------------
     # bytes the parser reacts to while scanning a value: literals compared with chr(view[i]) / split bytes / the un-escaper's lead byte
@@ -368,11 +416,13 @@ def operator_agreement(model: Model, run: Run) -> None:
         strm = c.methods.get("__str__")
         if strm is None:
             continue
-        rets = [r for r in walk_no_nested(strm.node) if isinstance(r, ast.Return) and isinstance(r.value, ast.JoinedStr)]
+        rets = [r for r in walk_no_nested(strm.node) if isinstance(r, ast.Return) and r.value is not None]
         if len(rets) != 1:
             continue
-        parts = rets[0].value.values
-        consts = [(i, p.value) for i, p in enumerate(parts) if isinstance(p, ast.Constant) and isinstance(p.value, str)]
+        tpl = str_template(model, strm, rets[0].value)
+        if tpl is None:
+            continue
+        consts = [(i, p_) for i, p_ in enumerate(tpl) if p_ is not None]
         if not consts or not consts[0][1].startswith("("):
             continue
         first = consts[0][1]
@@ -401,3 +451,41 @@ def operator_agreement(model: Model, run: Run) -> None:
         if not ok:
             run.fail(Finding("J8-operator-tables-agree", cq, f"parser={sorted(chars)} str={op}", why + ": the text form parses back as a different kind of filter", model.loc(FILTER, strm.node)))
     run.floor("filter classes with an operator in both tables", n, 8)
+
+
+def str_template(model: Model, fi, e: ast.expr, depth: int = 0):
+    """The text shape an expression produces: a list of constant chunks (str) and holes (None).  f-strings directly; a call to a
+    module-level helper whose body is `return f"..."` with its parameters replaced by the arguments (constant arguments stay
+    constant).  None when the expression is something else."""
+    parts = None
+    if isinstance(e, ast.JoinedStr):
+        parts = [p.value if isinstance(p, ast.Constant) and isinstance(p.value, str) else None for p in e.values]
+    elif isinstance(e, ast.Call) and isinstance(e.func, ast.Name) and depth < 3:
+        q = model.resolve_name(fi.module, e.func.id)
+        hf = model.functions.get(q) if q else None
+        if hf is None or hf.cls is not None or isinstance(hf.node, ast.Lambda):
+            return None
+        body = [b for b in hf.node.body if not (isinstance(b, ast.Expr) and isinstance(b.value, ast.Constant))]
+        if len(body) != 1 or not isinstance(body[0], ast.Return) or not isinstance(body[0].value, ast.JoinedStr):
+            return None
+        ps = hf.params()
+        bound = {ps[i]: a for i, a in enumerate(e.args) if i < len(ps)}
+        bound.update({k.arg: k.value for k in e.keywords if k.arg in ps})
+        parts = []
+        for p in body[0].value.values:
+            if isinstance(p, ast.Constant) and isinstance(p.value, str):
+                parts.append(p.value)
+            elif isinstance(p, ast.FormattedValue) and isinstance(p.value, ast.Name) and p.value.id in bound and isinstance(bound[p.value.id], ast.Constant) \
+                    and isinstance(bound[p.value.id].value, str) and p.format_spec is None:
+                parts.append(bound[p.value.id].value)
+            else:
+                parts.append(None)
+    if parts is None:
+        return None
+    out = []
+    for p in parts:
+        if p is not None and out and out[-1] is not None:
+            out[-1] += p
+        else:
+            out.append(p)
+    return out
